@@ -1,2 +1,207 @@
-/* modules ops */
-#define OPS_MODULES
+/* ops over ecdh, ellswift, ecdsa_s2c, ecdsa_adaptor, musig, schnorrsig_halfagg */
+
+/* ---- ECDH */
+static int ecdh_hash_fail(unsigned char *o, const unsigned char *x, const unsigned char *y, void *d) { (void)o; (void)x; (void)y; (void)d; return 0; }
+static int ecdh_hash_xy(unsigned char *o, const unsigned char *x, const unsigned char *y, void *d) { (void)d; memcpy(o, x, 32); memcpy(o + 32, y, 32); return 1; }
+/* ecdh pubkey seckey mode ; mode 0: NULL (default), 1: sha256 explicit, 2: failing callback, 3: raw x||y (64 bytes) */
+static void op_ecdh(void) {
+    unsigned char *pk = A_fix(0, PK, 0), *sk = A_fix(1, 32, 0); long mode = A_int(2); unsigned char *out = O_buf(mode == 3 ? 64 : 32); int r;
+    secp256k1_ecdh_hash_function fp = NULL;
+    if (g_bad) return;
+    if (mode == 1) fp = secp256k1_ecdh_hash_function_sha256; else if (mode == 2) fp = ecdh_hash_fail; else if (mode == 3) fp = ecdh_hash_xy;
+    CALL(r = secp256k1_ecdh(ctx, out, (secp256k1_pubkey *)pk, sk, fp, NULL)); R_int(r); R_hex(out, mode == 3 ? 64 : 32);
+}
+
+/* ---- ElligatorSwift */
+static int xdh_hash_fail(unsigned char *o, const unsigned char *x, const unsigned char *a, const unsigned char *b, void *d) { (void)o; (void)x; (void)a; (void)b; (void)d; return 0; }
+static int xdh_hash_raw(unsigned char *o, const unsigned char *x, const unsigned char *a, const unsigned char *b, void *d) { (void)a; (void)b; (void)d; memcpy(o, x, 32); return 1; }
+static void op_ellswift_encode(void) { unsigned char *pk = A_fix(0, PK, 0), *rnd = A_fix(1, 32, 0), *out = O_buf(64); int r; if (g_bad) return; CALL(r = secp256k1_ellswift_encode(ctx, out, (secp256k1_pubkey *)pk, rnd)); R_int(r); R_hex(out, 64); }
+static void op_ellswift_decode(void) { unsigned char *e = A_fix(0, 64, 0), *pk = O_buf(PK); int r; if (g_bad) return; CALL(r = secp256k1_ellswift_decode(ctx, (secp256k1_pubkey *)pk, e)); R_int(r); R_hex(pk, PK); }
+static void op_ellswift_create(void) { unsigned char *sk = A_fix(0, 32, 0), *aux = A_fix(1, 32, 1), *out = O_buf(64); int r; if (g_bad) return; CALL(r = secp256k1_ellswift_create(ctx, out, sk, aux)); R_int(r); R_hex(out, 64); }
+/* ellswift_xdh ell_a ell_b seckey party mode prefix64|- ; mode 0: bip324, 1: prefix (data = 64 bytes), 2: failing, 3: raw x */
+static void op_ellswift_xdh(void) {
+    unsigned char *a = A_fix(0, 64, 0), *b = A_fix(1, 64, 0), *sk = A_fix(2, 32, 0); int party = (int)A_int(3); long mode = A_int(4);
+    unsigned char *pre = A_fix(5, 64, 1), *out = O_buf(32); int r; secp256k1_ellswift_xdh_hash_function fp = secp256k1_ellswift_xdh_hash_function_bip324;
+    if (g_bad) return;
+    if (mode == 1) fp = secp256k1_ellswift_xdh_hash_function_prefix; else if (mode == 2) fp = xdh_hash_fail; else if (mode == 3) fp = xdh_hash_raw;
+    CALL(r = secp256k1_ellswift_xdh(ctx, out, a, b, sk, party, fp, pre)); R_int(r); R_hex(out, 32);
+}
+
+/* ---- sign-to-contract / anti-exfil */
+#define OPENING sizeof(secp256k1_ecdsa_s2c_opening)
+static void op_s2c_opening_parse(void) { unsigned char *in = A_fix(0, 33, 0), *o = O_buf(OPENING); int r; if (g_bad) return; CALL(r = secp256k1_ecdsa_s2c_opening_parse(ctx, (secp256k1_ecdsa_s2c_opening *)o, in)); R_int(r); R_hex(o, OPENING); }
+static void op_s2c_opening_serialize(void) { unsigned char *o = A_fix(0, OPENING, 0), *out = O_buf(33); int r; if (g_bad) return; CALL(r = secp256k1_ecdsa_s2c_opening_serialize(ctx, out, (secp256k1_ecdsa_s2c_opening *)o)); R_int(r); R_hex(out, 33); }
+/* s2c_sign msg seckey data want_opening -> ret sig opening */
+static void op_s2c_sign(void) {
+    unsigned char *m = A_fix(0, 32, 0), *sk = A_fix(1, 32, 0), *d = A_fix(2, 32, 0); long wo = A_int(3); unsigned char *sig = O_buf(SIG), *op = wo ? O_buf(OPENING) : NULL; int r;
+    if (g_bad) return; CALL(r = secp256k1_ecdsa_s2c_sign(ctx, (secp256k1_ecdsa_signature *)sig, (secp256k1_ecdsa_s2c_opening *)op, m, sk, d)); R_int(r); R_hex(sig, SIG); R_hex(op, OPENING);
+}
+static void op_s2c_verify_commit(void) { unsigned char *sig = A_fix(0, SIG, 0), *d = A_fix(1, 32, 0), *o = A_fix(2, OPENING, 0); int r; if (g_bad) return; CALL(r = secp256k1_ecdsa_s2c_verify_commit(ctx, (secp256k1_ecdsa_signature *)sig, d, (secp256k1_ecdsa_s2c_opening *)o)); R_int(r); }
+static void op_ae_host_commit(void) { unsigned char *rnd = A_fix(0, 32, 0), *out = O_buf(32); int r; if (g_bad) return; CALL(r = secp256k1_ecdsa_anti_exfil_host_commit(ctx, out, rnd)); R_int(r); R_hex(out, 32); }
+static void op_ae_signer_commit(void) { unsigned char *m = A_fix(0, 32, 0), *sk = A_fix(1, 32, 0), *c = A_fix(2, 32, 0), *o = O_buf(OPENING); int r; if (g_bad) return; CALL(r = secp256k1_ecdsa_anti_exfil_signer_commit(ctx, (secp256k1_ecdsa_s2c_opening *)o, m, sk, c)); R_int(r); R_hex(o, OPENING); }
+static void op_ae_sign(void) { unsigned char *m = A_fix(0, 32, 0), *sk = A_fix(1, 32, 0), *h = A_fix(2, 32, 0), *sig = O_buf(SIG); int r; if (g_bad) return; CALL(r = secp256k1_anti_exfil_sign(ctx, (secp256k1_ecdsa_signature *)sig, m, sk, h)); R_int(r); R_hex(sig, SIG); }
+static void op_ae_host_verify(void) { unsigned char *sig = A_fix(0, SIG, 0), *m = A_fix(1, 32, 0), *pk = A_fix(2, PK, 0), *h = A_fix(3, 32, 0), *o = A_fix(4, OPENING, 0); int r; if (g_bad) return; CALL(r = secp256k1_anti_exfil_host_verify(ctx, (secp256k1_ecdsa_signature *)sig, m, (secp256k1_pubkey *)pk, h, (secp256k1_ecdsa_s2c_opening *)o)); R_int(r); }
+
+/* ---- ECDSA adaptor */
+static int anonce_fail(unsigned char *n, const unsigned char *m, const unsigned char *k, const unsigned char *pk, const unsigned char *a, size_t al, void *d) { (void)n; (void)m; (void)k; (void)pk; (void)a; (void)al; (void)d; return 0; }
+static int anonce_zero(unsigned char *n, const unsigned char *m, const unsigned char *k, const unsigned char *pk, const unsigned char *a, size_t al, void *d) { (void)m; (void)k; (void)pk; (void)a; (void)al; (void)d; memset(n, 0, 32); return 1; }
+/* adaptor_encrypt seckey enckey msg mode ndata|- ; mode 0: NULL fp, 1: default explicit, 2: failing, 3: zero nonce */
+static void op_adaptor_encrypt(void) {
+    unsigned char *sk = A_fix(0, 32, 0), *ek = A_fix(1, PK, 0), *m = A_fix(2, 32, 0); long mode = A_int(3); unsigned char *nd = A_fix(4, 32, 1), *out = O_buf(162); int r;
+    secp256k1_nonce_function_hardened_ecdsa_adaptor fp = NULL;
+    if (g_bad) return;
+    if (mode == 1) fp = secp256k1_nonce_function_ecdsa_adaptor; else if (mode == 2) fp = anonce_fail; else if (mode == 3) fp = anonce_zero;
+    CALL(r = secp256k1_ecdsa_adaptor_encrypt(ctx, out, sk, (secp256k1_pubkey *)ek, m, fp, nd)); R_int(r); R_hex(out, 162);
+}
+static void op_adaptor_verify(void) { unsigned char *a = A_fix(0, 162, 0), *pk = A_fix(1, PK, 0), *m = A_fix(2, 32, 0), *ek = A_fix(3, PK, 0); int r; if (g_bad) return; CALL(r = secp256k1_ecdsa_adaptor_verify(ctx, a, (secp256k1_pubkey *)pk, m, (secp256k1_pubkey *)ek)); R_int(r); }
+static void op_adaptor_decrypt(void) { unsigned char *dk = A_fix(0, 32, 0), *a = A_fix(1, 162, 0), *sig = O_buf(SIG); int r; if (g_bad) return; CALL(r = secp256k1_ecdsa_adaptor_decrypt(ctx, (secp256k1_ecdsa_signature *)sig, dk, a)); R_int(r); R_hex(sig, SIG); }
+static void op_adaptor_recover(void) { unsigned char *sig = A_fix(0, SIG, 0), *a = A_fix(1, 162, 0), *ek = A_fix(2, PK, 0), *out = O_buf(32); int r; if (g_bad) return; CALL(r = secp256k1_ecdsa_adaptor_recover(ctx, out, (secp256k1_ecdsa_signature *)sig, a, (secp256k1_pubkey *)ek)); R_int(r); R_hex(out, 32); }
+
+/* ---- MuSig2 */
+#define KAC 197
+#define NONCE 132
+#define SESS 133
+#define PSIG 36
+static void op_musig_pubnonce_parse(void) { unsigned char *in = A_fix(0, 66, 0), *o = O_buf(NONCE); int r; if (g_bad) return; CALL(r = secp256k1_musig_pubnonce_parse(ctx, (secp256k1_musig_pubnonce *)o, in)); R_int(r); R_hex(o, NONCE); }
+static void op_musig_pubnonce_serialize(void) { unsigned char *o = A_fix(0, NONCE, 0), *out = O_buf(66); int r; if (g_bad) return; CALL(r = secp256k1_musig_pubnonce_serialize(ctx, out, (secp256k1_musig_pubnonce *)o)); R_int(r); R_hex(out, 66); }
+static void op_musig_aggnonce_parse(void) { unsigned char *in = A_fix(0, 66, 0), *o = O_buf(NONCE); int r; if (g_bad) return; CALL(r = secp256k1_musig_aggnonce_parse(ctx, (secp256k1_musig_aggnonce *)o, in)); R_int(r); R_hex(o, NONCE); }
+static void op_musig_aggnonce_serialize(void) { unsigned char *o = A_fix(0, NONCE, 0), *out = O_buf(66); int r; if (g_bad) return; CALL(r = secp256k1_musig_aggnonce_serialize(ctx, out, (secp256k1_musig_aggnonce *)o)); R_int(r); R_hex(out, 66); }
+static void op_musig_partial_sig_parse(void) { unsigned char *in = A_fix(0, 32, 0), *o = O_buf(PSIG); int r; if (g_bad) return; CALL(r = secp256k1_musig_partial_sig_parse(ctx, (secp256k1_musig_partial_sig *)o, in)); R_int(r); R_hex(o, PSIG); }
+static void op_musig_partial_sig_serialize(void) { unsigned char *o = A_fix(0, PSIG, 0), *out = O_buf(32); int r; if (g_bad) return; CALL(r = secp256k1_musig_partial_sig_serialize(ctx, out, (secp256k1_musig_partial_sig *)o)); R_int(r); R_hex(out, 32); }
+/* musig_pubkey_agg concat(pks) n want_aggpk want_cache -> ret aggpk(xonly obj) cache */
+static void op_musig_pubkey_agg(void) {
+    size_t l; unsigned char *a = A_blob(0, &l); size_t n = (size_t)A_u64(1); long wa = A_int(2), wc = A_int(3);
+    unsigned char *agg = wa ? O_buf(PK) : NULL, *kac = wc ? O_buf(KAC) : NULL; int r; void **pp;
+    if (g_bad) return; if (l != n * PK) { bad("size", 0); return; }
+    pp = ptr_array(a, n, PK);
+    CALL(r = secp256k1_musig_pubkey_agg(ctx, (secp256k1_xonly_pubkey *)agg, (secp256k1_musig_keyagg_cache *)kac, (const secp256k1_pubkey * const *)pp, n)); R_int(r); R_hex(agg, PK); R_hex(kac, KAC);
+}
+static void op_musig_pubkey_get(void) { unsigned char *kac = A_fix(0, KAC, 0), *pk = O_buf(PK); int r; if (g_bad) return; CALL(r = secp256k1_musig_pubkey_get(ctx, (secp256k1_pubkey *)pk, (secp256k1_musig_keyagg_cache *)kac)); R_int(r); R_hex(pk, PK); }
+/* musig_tweak_add cache tweak xonly? want_out -> ret out cache */
+static void op_musig_tweak_add(void) {
+    unsigned char *kac = A_fix(0, KAC, 0), *t = A_fix(1, 32, 0); long xo = A_int(2), wo = A_int(3); unsigned char *out = wo ? O_buf(PK) : NULL; int r;
+    if (g_bad) return;
+    if (xo) CALL(r = secp256k1_musig_pubkey_xonly_tweak_add(ctx, (secp256k1_pubkey *)out, (secp256k1_musig_keyagg_cache *)kac, t));
+    else CALL(r = secp256k1_musig_pubkey_ec_tweak_add(ctx, (secp256k1_pubkey *)out, (secp256k1_musig_keyagg_cache *)kac, t));
+    R_int(r); R_hex(out, PK); R_hex(kac, KAC);
+}
+/* decoded view of a keyagg cache: ret pk33 second_pk33|- pks_hash tweak parity_acc */
+static void op_musig_cache_view(void) {
+    unsigned char *kac = A_fix(0, KAC, 0); secp256k1_keyagg_cache_internal ci; int r; unsigned char b[33], t[32];
+    if (g_bad) return;
+    CALL(r = secp256k1_keyagg_cache_load(ctx, &ci, (secp256k1_musig_keyagg_cache *)kac)); R_int(r);
+    if (!r) return;
+    secp256k1_ge_serialize_ext(b, &ci.pk); R_hex(b, 33);
+    secp256k1_ge_serialize_ext(b, &ci.second_pk); R_hex(b, 33);
+    R_hex(ci.pks_hash, 32); secp256k1_scalar_get_b32(t, &ci.tweak); R_hex(t, 32); R_int(ci.parity_acc);
+}
+/* decoded view of a session: ret fin_nonce_parity fin_nonce noncecoef challenge s_part */
+static void op_musig_session_view(void) {
+    unsigned char *s = A_fix(0, SESS, 0); secp256k1_musig_session_internal si; int r; unsigned char t[32];
+    if (g_bad) return;
+    CALL(r = secp256k1_musig_session_load(ctx, &si, (secp256k1_musig_session *)s)); R_int(r);
+    if (!r) return;
+    R_int(si.fin_nonce_parity); R_hex(si.fin_nonce, 32);
+    secp256k1_scalar_get_b32(t, &si.noncecoef); R_hex(t, 32); secp256k1_scalar_get_b32(t, &si.challenge); R_hex(t, 32); secp256k1_scalar_get_b32(t, &si.s_part); R_hex(t, 32);
+}
+/* decoded view of a secnonce (for the single-use ledger): ret k1 k2 pk33 ; ret 0 if magic/zero check fails (no callback raised here) */
+static void op_musig_secnonce_view(void) {
+    unsigned char *sn = A_fix(0, NONCE, 0); secp256k1_scalar k[2]; secp256k1_ge pk; unsigned char t[33]; static const unsigned char zero[NONCE] = {0};
+    if (g_bad) return;
+    if (memcmp(sn, zero, NONCE) == 0 || memcmp(sn, secp256k1_musig_secnonce_magic, 4) != 0) { R_int(0); return; }
+    secp256k1_scalar_set_b32(&k[0], sn + 4, NULL); secp256k1_scalar_set_b32(&k[1], sn + 36, NULL);
+    R_int(1); secp256k1_scalar_get_b32(t, &k[0]); R_hex(t, 32); secp256k1_scalar_get_b32(t, &k[1]); R_hex(t, 32);
+    secp256k1_ge_from_bytes(&pk, sn + 68); secp256k1_ge_serialize_ext(t, &pk); R_hex(t, 33);
+}
+/* musig_nonce_gen secnonce_in|- want_pubnonce secrand|- seckey|- pubkey|- msg|- cache|- extra|-  -> ret secnonce pubnonce secrand_after */
+static void op_musig_nonce_gen(void) {
+    unsigned char *sn_in = A_fix(0, NONCE, 1); long wp = A_int(1); unsigned char *rnd = A_fix(2, 32, 1), *sk = A_fix(3, 32, 1), *pk = A_fix(4, PK, 1), *m = A_fix(5, 32, 1), *kac = A_fix(6, KAC, 1), *ex = A_fix(7, 32, 1);
+    unsigned char *sn = O_buf(NONCE), *pn = wp ? O_buf(NONCE) : NULL; int r;
+    if (g_bad) return;
+    if (sn_in) memcpy(sn, sn_in, NONCE);
+    CALL(r = secp256k1_musig_nonce_gen(ctx, (secp256k1_musig_secnonce *)sn, (secp256k1_musig_pubnonce *)pn, rnd, sk, (secp256k1_pubkey *)pk, m, (secp256k1_musig_keyagg_cache *)kac, ex));
+    R_int(r); R_hex(sn, NONCE); R_hex(pn, NONCE); R_hex(rnd, 32);
+}
+/* musig_nonce_gen_counter secnonce_in|- want_pubnonce counter keypair|- msg|- cache|- extra|- -> ret secnonce pubnonce */
+static void op_musig_nonce_gen_counter(void) {
+    unsigned char *sn_in = A_fix(0, NONCE, 1); long wp = A_int(1); uint64_t cnt = A_u64(2); unsigned char *kp = A_fix(3, KP, 1), *m = A_fix(4, 32, 1), *kac = A_fix(5, KAC, 1), *ex = A_fix(6, 32, 1);
+    unsigned char *sn = O_buf(NONCE), *pn = wp ? O_buf(NONCE) : NULL; int r;
+    if (g_bad) return;
+    if (sn_in) memcpy(sn, sn_in, NONCE);
+    CALL(r = secp256k1_musig_nonce_gen_counter(ctx, (secp256k1_musig_secnonce *)sn, (secp256k1_musig_pubnonce *)pn, cnt, (secp256k1_keypair *)kp, m, (secp256k1_musig_keyagg_cache *)kac, ex));
+    R_int(r); R_hex(sn, NONCE); R_hex(pn, NONCE);
+}
+static void op_musig_nonce_agg(void) {
+    size_t l; unsigned char *a = A_blob(0, &l); size_t n = (size_t)A_u64(1); unsigned char *out = O_buf(NONCE); int r; void **pp;
+    if (g_bad) return; if (l != n * NONCE) { bad("size", 0); return; }
+    pp = ptr_array(a, n, NONCE);
+    CALL(r = secp256k1_musig_nonce_agg(ctx, (secp256k1_musig_aggnonce *)out, (const secp256k1_musig_pubnonce * const *)pp, n)); R_int(r); R_hex(out, NONCE);
+}
+/* musig_nonce_process aggnonce msg cache adaptor|- */
+static void op_musig_nonce_process(void) {
+    unsigned char *an = A_fix(0, NONCE, 0), *m = A_fix(1, 32, 0), *kac = A_fix(2, KAC, 0), *ad = A_fix(3, PK, 1), *s = O_buf(SESS); int r;
+    if (g_bad) return;
+    CALL(r = secp256k1_musig_nonce_process(ctx, (secp256k1_musig_session *)s, (secp256k1_musig_aggnonce *)an, m, (secp256k1_musig_keyagg_cache *)kac, (secp256k1_pubkey *)ad)); R_int(r); R_hex(s, SESS);
+}
+/* musig_partial_sign want_out secnonce|- keypair|- cache|- session|- -> ret psig secnonce_after */
+static void op_musig_partial_sign(void) {
+    long wo = A_int(0); unsigned char *sn = A_fix(1, NONCE, 1), *kp = A_fix(2, KP, 1), *kac = A_fix(3, KAC, 1), *s = A_fix(4, SESS, 1), *out = wo ? O_buf(PSIG) : NULL; int r;
+    if (g_bad) return;
+    CALL(r = secp256k1_musig_partial_sign(ctx, (secp256k1_musig_partial_sig *)out, (secp256k1_musig_secnonce *)sn, (secp256k1_keypair *)kp, (secp256k1_musig_keyagg_cache *)kac, (secp256k1_musig_session *)s));
+    R_int(r); R_hex(out, PSIG); R_hex(sn, NONCE);
+}
+static void op_musig_partial_sig_verify(void) {
+    unsigned char *ps = A_fix(0, PSIG, 0), *pn = A_fix(1, NONCE, 0), *pk = A_fix(2, PK, 0), *kac = A_fix(3, KAC, 0), *s = A_fix(4, SESS, 0); int r;
+    if (g_bad) return;
+    CALL(r = secp256k1_musig_partial_sig_verify(ctx, (secp256k1_musig_partial_sig *)ps, (secp256k1_musig_pubnonce *)pn, (secp256k1_pubkey *)pk, (secp256k1_musig_keyagg_cache *)kac, (secp256k1_musig_session *)s)); R_int(r);
+}
+static void op_musig_partial_sig_agg(void) {
+    unsigned char *s = A_fix(0, SESS, 0); size_t l; unsigned char *a = A_blob(1, &l); size_t n = (size_t)A_u64(2); unsigned char *out = O_buf(64); int r; void **pp;
+    if (g_bad) return; if (l != n * PSIG) { bad("size", 1); return; }
+    pp = ptr_array(a, n, PSIG);
+    CALL(r = secp256k1_musig_partial_sig_agg(ctx, out, (secp256k1_musig_session *)s, (const secp256k1_musig_partial_sig * const *)pp, n)); R_int(r); R_hex(out, 64);
+}
+static void op_musig_nonce_parity(void) { unsigned char *s = A_fix(0, SESS, 0); int par = -77, r; if (g_bad) return; CALL(r = secp256k1_musig_nonce_parity(ctx, &par, (secp256k1_musig_session *)s)); R_int(r); R_int(par); }
+static void op_musig_adapt(void) { unsigned char *pre = A_fix(0, 64, 0), *t = A_fix(1, 32, 0); int par = (int)A_int(2); unsigned char *out = O_buf(64); int r; if (g_bad) return; CALL(r = secp256k1_musig_adapt(ctx, out, pre, t, par)); R_int(r); R_hex(out, 64); }
+static void op_musig_extract_adaptor(void) { unsigned char *sig = A_fix(0, 64, 0), *pre = A_fix(1, 64, 0); int par = (int)A_int(2); unsigned char *out = O_buf(32); int r; if (g_bad) return; CALL(r = secp256k1_musig_extract_adaptor(ctx, out, sig, pre, par)); R_int(r); R_hex(out, 32); }
+
+/* ---- half-aggregation */
+/* halfagg_aggregate pubkeys(xonly objs) msgs sigs n buflen -> ret outlen agg */
+static void op_halfagg_aggregate(void) {
+    size_t lp, lm, ls; unsigned char *pks = A_blob(0, &lp), *ms = A_blob(1, &lm), *sg = A_blob(2, &ls); size_t n = (size_t)A_u64(3), bl = (size_t)A_u64(4), ol = bl;
+    unsigned char *out = O_buf(bl); int r;
+    if (g_bad) return;
+    CALL(r = secp256k1_schnorrsig_aggregate(ctx, out, &ol, (secp256k1_xonly_pubkey *)pks, ms, sg, n)); R_int(r); R_u64(ol); R_hex(out, bl);
+}
+/* halfagg_inc aggsig_in(bytes placed at start of a buffer of buflen) buflen aggsig_len all_pubkeys all_msgs new_sigs n_before n_new -> ret outlen agg */
+static void op_halfagg_inc(void) {
+    size_t la, lp, lm, ls; unsigned char *ain = A_blob(0, &la); size_t bl = (size_t)A_u64(1), ol = (size_t)A_u64(2);
+    unsigned char *pks = A_blob(3, &lp), *ms = A_blob(4, &lm), *sg = A_blob(5, &ls); size_t nb = (size_t)A_u64(6), nn = (size_t)A_u64(7); unsigned char *buf = O_buf(bl); int r;
+    if (g_bad) return; if (la > bl) { bad("aggsig longer than buffer", 0); return; }
+    if (la) memcpy(buf, ain, la);
+    CALL(r = secp256k1_schnorrsig_inc_aggregate(ctx, buf, &ol, (secp256k1_xonly_pubkey *)pks, ms, sg, nb, nn)); R_int(r); R_u64(ol); R_hex(buf, bl);
+}
+static void op_halfagg_verify(void) {
+    size_t lp, lm, la; unsigned char *pks = A_blob(0, &lp), *ms = A_blob(1, &lm); size_t n = (size_t)A_u64(2); unsigned char *agg = A_blob(3, &la); int r;
+    if (g_bad) return;
+    CALL(r = secp256k1_schnorrsig_aggverify(ctx, (secp256k1_xonly_pubkey *)pks, ms, n, agg, la)); R_int(r);
+}
+
+#undef OPS_MODULES
+#define OPS_MODULES \
+    { "ecdh", op_ecdh }, { "ellswift_encode", op_ellswift_encode }, { "ellswift_decode", op_ellswift_decode }, \
+    { "ellswift_create", op_ellswift_create }, { "ellswift_xdh", op_ellswift_xdh }, \
+    { "s2c_opening_parse", op_s2c_opening_parse }, { "s2c_opening_serialize", op_s2c_opening_serialize }, { "s2c_sign", op_s2c_sign }, \
+    { "s2c_verify_commit", op_s2c_verify_commit }, { "ae_host_commit", op_ae_host_commit }, { "ae_signer_commit", op_ae_signer_commit }, \
+    { "ae_sign", op_ae_sign }, { "ae_host_verify", op_ae_host_verify }, \
+    { "adaptor_encrypt", op_adaptor_encrypt }, { "adaptor_verify", op_adaptor_verify }, { "adaptor_decrypt", op_adaptor_decrypt }, { "adaptor_recover", op_adaptor_recover }, \
+    { "musig_pubnonce_parse", op_musig_pubnonce_parse }, { "musig_pubnonce_serialize", op_musig_pubnonce_serialize }, \
+    { "musig_aggnonce_parse", op_musig_aggnonce_parse }, { "musig_aggnonce_serialize", op_musig_aggnonce_serialize }, \
+    { "musig_partial_sig_parse", op_musig_partial_sig_parse }, { "musig_partial_sig_serialize", op_musig_partial_sig_serialize }, \
+    { "musig_pubkey_agg", op_musig_pubkey_agg }, { "musig_pubkey_get", op_musig_pubkey_get }, { "musig_tweak_add", op_musig_tweak_add }, \
+    { "musig_cache_view", op_musig_cache_view }, { "musig_session_view", op_musig_session_view }, { "musig_secnonce_view", op_musig_secnonce_view }, \
+    { "musig_nonce_gen", op_musig_nonce_gen }, { "musig_nonce_gen_counter", op_musig_nonce_gen_counter }, { "musig_nonce_agg", op_musig_nonce_agg }, \
+    { "musig_nonce_process", op_musig_nonce_process }, { "musig_partial_sign", op_musig_partial_sign }, { "musig_partial_sig_verify", op_musig_partial_sig_verify }, \
+    { "musig_partial_sig_agg", op_musig_partial_sig_agg }, { "musig_nonce_parity", op_musig_nonce_parity }, { "musig_adapt", op_musig_adapt }, \
+    { "musig_extract_adaptor", op_musig_extract_adaptor }, \
+    { "halfagg_aggregate", op_halfagg_aggregate }, { "halfagg_inc", op_halfagg_inc }, { "halfagg_verify", op_halfagg_verify },
